@@ -138,6 +138,12 @@ func (ca *Cache) Reset() {
 	if len(ca.Cache) == 0 {
 		return
 	}
+	// the limits of the symbols that are dropped go with them
+	for _, m := range ca.Cache[1:] {
+		for k := range m {
+			delete(ca.Sizes, k)
+		}
+	}
 	ca.Cache = ca.Cache[:1]
 	if ca.LastFrame > 0 {
 		ca.LastValue = ""
